@@ -891,8 +891,10 @@ class XsdElement(XsdComponent, ParticleMixin,
                 if not counter.enabled:
                     continue
 
-            if counter.elements is None:
+            if counter.elements is None or \
+                    obj not in counter.elements and context.source.is_lazy():
                 # Apply selector on Element ancestor for obtain the selected elements
+                # (a lazy tree grows while it is streamed: select again on a miss)
                 root_node = context.source.get_xpath_node(counter.elem)
                 xpath_context = XPathContext(root_node)
                 assert identity.selector is not None
